@@ -46,7 +46,8 @@ class Contract:
         self.verify = kw.get("verify", True)            # False: assumed contract (trusted), listed in evidence
         self.ghost_after = list(kw.get("ghost_after", []))
         self.note = kw.get("note", "")
-        self.env = dict(kw.get("env", {}))              # extra class variables, e.g. {"$P": "BinaryPartition"}
+        self.env = dict(kw.get("env", {}))
+        self.rng = kw.get("rng", True)                   # False: any numpy random call inside is an obligation failure              # extra class variables, e.g. {"$P": "BinaryPartition"}
 
 
 class Loop:
